@@ -198,6 +198,49 @@ def check_session(item, label, entry, market, handler, prequery=False):
     return fails, n_b
 
 
+def static_with_signals(item):
+    """StaticUniverse + a SignalsCollection + an asset whose data start after the session does (burn-in until then):
+    afterwards the universe still yields exactly its configured list, and every member got a target weight"""
+    from qstrader.asset.universe.static import StaticUniverse
+    d = scratch_dir('qsc19s-')
+    viols = []
+    case = {'kind': 'static_signals', 'item': item}
+    try:
+        days = MARKET_DAYS
+        market = sl.make_market(days, {'AAA': ('rising', BASES['AAA']), 'BBB': ('zigzag', BASES['BBB'], item['late'])})
+        sl.write_market(d, market)
+        handler, _ = sl.load_handler(d, market)
+        start = rm.utc(days[2], 14, 30)
+        end = rm.utc(days[12], 23, 59)
+        burn = rm.utc(days[item['late']], 0, 0)
+        names = ['EQ:AAA', 'EQ:BBB']
+        cfg = {'start': start.isoformat(), 'end': end.isoformat(), 'burn_in': burn.isoformat(), 'assets': names,
+               'universe': {'kind': 'static'}, 'alpha': {'kind': 'fixed', 'weights': {'EQ:AAA': 0.5, 'EQ:BBB': 0.5}},
+               'rebalance': 'daily', 'weekday': None, 'long_only': item['long_only'], 'fee': ['zero'], 'cash': 10007.31,
+               'signals': {'lookbacks': [3]}}
+        cfg['buffer' if item['long_only'] else 'leverage'] = 0.05 if item['long_only'] else 1.0
+        uni = StaticUniverse(list(names))
+        obs = sl.run_session(cfg, handler, universe=uni)
+        if obs.error is not None:
+            viols.append({'clause': 'C19.run_failed', 'detail': {'error': obs.error}, 'case': case})
+        for q in QUERIES[:3] + [pd.Timestamp(end)]:
+            if list(uni.get_assets(q)) != names:
+                viols.append({'clause': 'C19.static_universe', 'case': case,
+                              'detail': {'after': 'a session with signals and a late-starting asset', 'dt': str(q),
+                                         'got': list(uni.get_assets(q)), 'want': names}})
+                break
+        for a in obs.allocs:
+            if set(k for k in a if k != 'Date') != set(names):
+                viols.append({'clause': 'C19.target_weight_membership', 'case': case,
+                              'detail': {'rebalance': str(a['Date']), 'assets_with_weight': sorted(k for k in a if k != 'Date'),
+                                         'members': names}})
+                break
+    finally:
+        mk.clear_caches()
+        shutil.rmtree(d, ignore_errors=True)
+    return {'viols': viols[:3], 'execs': 1, 'evals': 1, 'nontrivial': True, 'outcome': ('static_signals', item['late'], item['long_only'])}
+
+
 def per_session_item(item):
     d = scratch_dir('qsc19-')
     viols, n, nb = [], 0, 0
@@ -242,6 +285,8 @@ def run(tier, res, is_known):
                 opt_items.append((keys, vals))
     product(optimisers, opt_items, res, is_known, label='optimiser grid')
     product(per_session_item, session_items(tier), res, is_known, label='sessions', chunk=1)
+    product(static_with_signals, [{'late': k, 'long_only': lo} for k in (4, 6) for lo in (True, False)], res, is_known,
+            label='static universe with signals and late data', chunk=1)
     kinds = res.extra.pop('entry_kinds', set())
     res.extra['entry_kinds_covered'] = sorted(set(k[2] for k in kinds))
 
@@ -253,6 +298,8 @@ def replay(case):
     if case['kind'] == 'optimiser':
         w = case['weights']
         return optimisers((tuple(w.keys()), tuple(w.values())))['viols']
+    if case['kind'] == 'static_signals':
+        return static_with_signals(case['item'])['viols']
     d = scratch_dir('qsc19r-')
     try:
         market = sl.make_market(MARKET_DAYS, MARKET_SPEC)
